@@ -205,7 +205,11 @@ def solver_level(ctx):
                                                                                          MReimposeOnRetry=False),
              "incoming terminal values written back (nonzero configured value)": dict(oc.REPAIRED, MReimpose="incoming_nonzero"),
              "fix_psi flag frozen when the options object is constructed": dict(oc.REPAIRED, MFixFlag="at_construction")}
-    full, res = oc.identify_among(ctx, nat_traces, cands, "C06 natural runs")
+    # identification needs only the runs that can tell the mechanisms apart; every run is then judged under the
+    # identified mechanism (a run that does not conform to it is a violation)
+    telling = [t for t in nat_traces if t["v"] == "nonzero" or t["seed"] == "other" or t["form"] == "assign"
+               or t["info"]["retried_steps"] > 0]
+    full, res = oc.identify_among(ctx, telling, cands, "C06 natural runs that discriminate the mechanisms")
     if len(full) >= 2:
         raise core.MachineryFailure(f"C06: the natural runs do not discriminate the pin mechanisms {full}")
     which = full[0] if full else "configured value written after every accepted Euler step"
